@@ -72,22 +72,35 @@ impl<'de> Decode<'de> for Integer {
                     decoder.decode(core_data_reader)
                 }
             }
-            Self::Beta { offset, len } => core_data_reader.read_i32(*len).map(|i| i - offset),
+            Self::Beta { offset, len } => core_data_reader
+                .read_i32(*len)
+                .and_then(|i| checked_sub_offset(i, *offset)),
             Self::Gamma { offset } => {
-                let mut n = 0;
+                let mut n: u32 = 0;
 
                 while core_data_reader.read_bit()? == 0 {
-                    n += 1;
+                    // `read_i32` fails for a read of more than 31 bits.
+                    n = n.saturating_add(1);
                 }
 
                 let m = core_data_reader.read_i32(n)?;
                 let x = (1 << n) + m;
 
-                Ok(x - offset)
+                checked_sub_offset(x, *offset)
             }
-            _ => todo!("decode_itf8: {:?}", self),
+            Self::Golomb { .. } | Self::Subexp { .. } | Self::GolombRice { .. } => {
+                Err(io::Error::new(
+                    io::ErrorKind::InvalidData,
+                    format!("unsupported encoding: {self:?}"),
+                ))
+            }
         }
     }
+}
+
+fn checked_sub_offset(n: i32, offset: i32) -> io::Result<i32> {
+    n.checked_sub(offset)
+        .ok_or_else(|| io::Error::new(io::ErrorKind::InvalidData, "value overflow"))
 }
 
 impl Encode<'_> for Integer {
